@@ -14,6 +14,8 @@
 //!             `tick <secs>`    advance the mock clock                               => ok
 //!             `hsw x <win>`    rewrite the window byte of the handshake request travelling towards x => ok | skip
 //!             `due x`          Session::is_ack_due(now, ack timeout)                => 0 | 1
+//!             `tmo x`          Btp::timeout() = Session::is_timed_out(now, 30 s): the connection idle
+//!                              timeout the GATT glue polls (`wait_timeout`) to end the session => 0 | 1
 //! every answer of an end is followed by ` | <14 window fields>`; `panic` marks the end dead.
 use std::collections::VecDeque;
 use std::panic::{catch_unwind, AssertUnwindSafe};
@@ -198,6 +200,14 @@ impl World {
             "due" => {
                 let e = self.end(x);
                 return match catch_unwind(AssertUnwindSafe(|| e.btp.verif_is_ack_due())) {
+                    Ok(true) => "1".into(),
+                    Ok(false) => "0".into(),
+                    Err(_) => "panic".into(),
+                };
+            }
+            "tmo" => {
+                let e = self.end(x);
+                return match catch_unwind(AssertUnwindSafe(|| e.btp.timeout())) {
                     Ok(true) => "1".into(),
                     Ok(false) => "0".into(),
                     Err(_) => "panic".into(),
@@ -391,6 +401,7 @@ fn gen_hostile(r: &mut Rng, out: &mut Out, id: u64, thorough: bool) -> (String, 
         } else if c < 35 {
             g.op(format!("tick {}", *r.pick(&[1u64, 5, 14, 15, 16, 31])));
             g.op("due a".into());
+            g.op("tmo a".into());
         } else if c < 37 {
             do_handshake(&mut g, r, 60);
             msg_in_progress = None;
@@ -664,6 +675,8 @@ fn gen_link(r: &mut Rng, out: &mut Out, thorough: bool) -> (String, Vec<(String,
             _ => {
                 g.op(format!("tick {}", *r.pick(&[1u64, 2, 7, 14, 15, 16, 20])));
                 g.op(format!("due {}", if r.chance(1, 2) { "a" } else { "b" }));
+                g.op("tmo a".into());
+                g.op("tmo b".into());
             }
         }
         if g.w.a.dead || g.w.b.dead {
@@ -681,6 +694,8 @@ fn gen_link(r: &mut Rng, out: &mut Out, thorough: bool) -> (String, Vec<(String,
             fetch_var(&mut g, r, "a", &mut pend_ba);
             if r.chance(1, 6) {
                 g.op("tick 15".into());
+                g.op("tmo a".into());
+                g.op("tmo b".into());
             }
         }
     }
